@@ -9,6 +9,8 @@ from fractions import Fraction
 
 import numpy as np
 
+MIRRORS = [('enspara/tpt/path.py', None)]
+
 RULE = ('random integer-weighted flux matrices, n = 1..9: (a) acyclic conserved flows built by '
         'superposing source->sink paths in a random topological order, (b) arbitrary weighted '
         'digraphs with cycles / self-loops / tie-heavy weights, (c) degenerate inputs (no path, '
@@ -31,7 +33,6 @@ ASSUMPTIONS = [
 TRUSTED_EXTRA = ['Python oracle in harness/props/c17.py (simple-path enumeration, residual bookkeeping)']
 
 KEY_BOTTLENECK = 'bottleneck-scheme-shared-edge-overuse'
-KEY_NUMPATHS0 = 'num-paths-below-one-returns-one-path'
 
 DEFAULT_CUTOFF = 1 - 1E-10
 
@@ -306,11 +307,8 @@ def check_paths(ctx, case, mresp, second=None):
             return
         outflow = sum(sum(F[s]) for s in set(S))
         if num_paths is not None and len(ps) > num_paths:
-            if num_paths < 1 and len(ps) == 1:
-                ctx.violation('paths(num_paths=%d) returned one path' % num_paths, case, key=KEY_NUMPATHS0)
-            else:
-                ctx.violation('paths returned %d paths although num_paths=%d' % (len(ps), num_paths), case)
-                return
+            ctx.violation('paths returned %d paths although num_paths=%d' % (len(ps), num_paths), case)
+            return
         if sum(fs) > outflow:
             # every path is individually valid here; with the bottleneck scheme the excess is
             # carried by a source out-edge used by several paths beyond its capacity
@@ -323,7 +321,7 @@ def check_paths(ctx, case, mresp, second=None):
                           % (scheme, sum(fs), outflow), case, key=key)
             if key is None:
                 return
-        limited = num_paths is not None and len(ps) >= max(num_paths, 1)
+        limited = num_paths is not None and len(ps) >= num_paths
         if case['kind'] == 'conserved' and not limited and len(set(S)) == len(S) and outflow > 0:
             want = min(Fraction(cutoff), Fraction(1))
             if Fraction(sum(fs), outflow) < want - Fraction(1, 10 ** 9):
